@@ -280,3 +280,50 @@ Definition target_pre (f : bytes) (reserve : bool) (d : disk) : Prop :=
 (* os.CreateTemp opens with O_EXCL: the temp name is new in the work area *)
 Definition tmp_fresh (evs : list event) (d : disk) : Prop :=
   forall t, In (ECreate (LTmpFile t)) evs -> elookup t (tmp_vol d) = None.
+
+(* ---- failing operations: the discipline together with its clean-up ----
+   An operation that fails (I/O error, refusal by the kernel) stops somewhere
+   before the rename and removes what it created: first the temp file, then -
+   add only - the reservation of the final name.  After the rename an update
+   removes nothing any more (a failing fsync of the base directory just ends
+   the trace); a failing add withdraws the record it has just installed.  [XAbort rsv]: clean-up in progress, [rsv] = the reservation is
+   still there. *)
+Inductive xstate := XRun (st : pstate) | XAbort (rsv : bool).
+
+Definition abort_step (f : bytes) (reserve : bool) (st : pstate) (e : event) : option xstate :=
+  match st, e with
+  | PStart true, EUnlink (LFile g) => if beq g f then Some (XAbort false) else None
+  | PTmp t, EUnlink (LTmpFile t') | PSynced t, EUnlink (LTmpFile t') =>
+      if beq t t' then Some (XAbort reserve) else None
+  (* add only: an error after the rename (base directory cannot be opened or
+     fsynced) withdraws the new, complete record again *)
+  | PRenamed _, EUnlink (LFile g) => if reserve && beq g f then Some (XAbort false) else None
+  | _, _ => None
+  end.
+
+Definition proto_step_x (f : bytes) (reserve : bool) (x : xstate) (e : event) : option xstate :=
+  match x with
+  | XRun st =>
+      match proto_step f reserve st e with
+      | Some st' => Some (XRun st')
+      | None => abort_step f reserve st e
+      end
+  | XAbort true =>
+      match e with
+      | EUnlink (LFile g) => if beq g f then Some (XAbort false) else None
+      | _ => None
+      end
+  | XAbort false => None
+  end.
+
+Fixpoint proto_run_x (f : bytes) (reserve : bool) (x : xstate) (evs : list event) : option xstate :=
+  match evs with
+  | [] => Some x
+  | e :: r => match proto_step_x f reserve x e with
+              | Some x' => proto_run_x f reserve x' r
+              | None => None
+              end
+  end.
+
+Definition protocol_prefix_x_ok (f : bytes) (reserve : bool) (evs : list event) : bool :=
+  match proto_run_x f reserve (XRun (PStart false)) evs with Some _ => true | None => false end.
